@@ -16,6 +16,12 @@ import (
 	"vs"
 )
 
+var (
+	pkgMu    vs.Mutex
+	pkgOnce  vs.Once
+	pkgFirst int
+)
+
 type prog struct {
 	name string
 	body func()
@@ -415,6 +421,34 @@ var corpus = []prog{
 		fin.Recv()
 		fin.Recv()
 	}, "no-deadlock"},
+	{"package-level-mutex-and-once-across-executions", func() {
+		// sync objects that OUTLIVE one execution (package-level variables of the program under
+		// test): every execution must meet them in their zero state, also after an execution
+		// that ended in a deadlock with the mutex held
+		pkgFirst = 0 // plain data is the program's business; the sync objects are the engine's
+		fin := vs.NewChan[int](2)
+		never := vs.NewChan[int](0)
+		for i := 0; i < 2; i++ {
+			i := i
+			vs.Go(func() {
+				pkgOnce.Do(func() { note("init by", i) })
+				pkgMu.Lock()
+				if i == 1 && pkgFirst == 0 {
+					// thread 1 first: keeps the lock for ever -> deadlock with the mutex held
+					pkgFirst = 1
+					never.Recv()
+				}
+				if pkgFirst == 0 {
+					pkgFirst = 2
+				}
+				pkgMu.Unlock()
+				fin.Send(1)
+			})
+		}
+		fin.Recv()
+		fin.Recv()
+		note("first", pkgFirst)
+	}, "deadlock-possible"},
 	{"atomic-cas-claim", func() {
 		var flag int32
 		var cnt vs.AtomicInt64
